@@ -79,6 +79,15 @@ Example frozenmapping_eq_hash_consistent :
   forall a b : obj, cls_eq frozenmapping_class a b = true -> cls_hkey frozenmapping_class a = cls_hkey frozenmapping_class b.
 Proof. intros a b. apply cls_eq_hash. vm_compute. reflexivity. Qed.
 
+(* a field store after construction (Statements.direct_dependencies: `stats = Statements(); stats._statements = [...]`)
+   changes an existing instance — and there the new field value is a list, so the returned object is unhashable *)
+Theorem post_construction_store_refuted :
+  exists (l : list (skind * nat * nat)) (o : inst) (g : nat),
+    forallb (fun s => skind_allowed (fst (fst s))) l = false /\ i_fields (run_stores l o) g <> i_fields o g.
+Proof.
+  exists [(SOther, 1, 7)], (mkinst (fun _ => 0) None), 1. split; [vm_compute; reflexivity | vm_compute; discriminate].
+Qed.
+
 (* ---- eq / hash: the term tables of the classes whose __hash__ hashes (or hashed) a term __eq__ does not compare.
    Field numbers are arbitrary labels; how = 0 raw attribute, 1 attribute seen through a function. *)
 (* CompartmentalSystem — REPAIRED in /repo 698ece8 (regression examples).  == compares _t,
